@@ -1,0 +1,168 @@
+//go:build verif
+
+package server
+
+import (
+	"sort"
+
+	"github.com/gopcua/opcua/ua"
+)
+
+// Verification hooks (build tag "verif"). Add-only, read-only views of the
+// server's tables; not compiled in normal builds.
+
+// VerifNodeKeys returns the keys (NodeID.String()) of all nodes of a node namespace, sorted.
+func (ns *NodeNameSpace) VerifNodeKeys() []string {
+	ns.mu.RLock()
+	defer ns.mu.RUnlock()
+	keys := make([]string, 0, len(ns.m))
+	for k := range ns.m {
+		keys = append(keys, k)
+	}
+	sort.Strings(keys)
+	return keys
+}
+
+// VerifNode returns the node stored under the key.
+func (ns *NodeNameSpace) VerifNode(key string) *Node {
+	ns.mu.RLock()
+	defer ns.mu.RUnlock()
+	return ns.m[key]
+}
+
+// VerifRefs returns the node's reference list (not a copy).
+func (n *Node) VerifRefs() []*ua.ReferenceDescription { return n.refs }
+
+// VerifAttrs returns the node's attribute map (not a copy).
+func (n *Node) VerifAttrs() map[ua.AttributeID]*ua.DataValue { return n.attr }
+
+// VerifHasValueFunc reports whether the node has a value function.
+func (n *Node) VerifHasValueFunc() bool { return n.val != nil }
+
+// VerifSession is a projection of one session of the session broker.
+type VerifSession struct {
+	Token     string
+	Activated bool
+}
+
+// VerifSessions returns the open sessions sorted by token.
+func (s *Server) VerifSessions() []VerifSession {
+	s.sb.mu.Lock()
+	defer s.sb.mu.Unlock()
+	var out []VerifSession
+	for k, v := range s.sb.s {
+		out = append(out, VerifSession{Token: k, Activated: v.activated})
+	}
+	sort.Slice(out, func(i, j int) bool { return out[i].Token < out[j].Token })
+	return out
+}
+
+// VerifSub is a projection of one subscription.
+type VerifSub struct {
+	ID       uint32
+	Owner    string // authentication token of the owning session, "" if none
+	Interval float64
+}
+
+// VerifSubs returns the live subscriptions sorted by id and the id counter.
+func (s *Server) VerifSubs() ([]VerifSub, uint32) {
+	svc := s.SubscriptionService
+	if svc == nil {
+		return nil, 0
+	}
+	svc.Mu.Lock()
+	defer svc.Mu.Unlock()
+	var out []VerifSub
+	for id, sub := range svc.Subs {
+		v := VerifSub{ID: id, Interval: sub.RevisedPublishingInterval}
+		if sub.ID != id {
+			v.Owner = "!id-mismatch"
+		} else if sub.Session != nil {
+			v.Owner = sub.Session.AuthTokenID.String()
+		}
+		out = append(out, v)
+	}
+	sort.Slice(out, func(i, j int) bool { return out[i].ID < out[j].ID })
+	return out, svc.lastSubID
+}
+
+// VerifItem is a projection of one monitored item.
+type VerifItem struct {
+	ID    uint32
+	Sub   uint32
+	Owner string
+	Node  string
+	Attr  uint32
+	Mode  uint32
+}
+
+// VerifItems returns the live monitored items sorted by id, the id counter, and whether
+// the by-node and by-subscription indexes list exactly the items of the id table.
+func (s *Server) VerifItems() ([]VerifItem, uint32, bool) {
+	svc := s.MonitoredItemService
+	if svc == nil {
+		return nil, 0, true
+	}
+	svc.Mu.Lock()
+	defer svc.Mu.Unlock()
+	var out []VerifItem
+	consistent := true
+	nNodes, nSubs := 0, 0
+	for _, l := range svc.Nodes {
+		for _, it := range l {
+			nNodes++
+			if it == nil || svc.Items[it.ID] != it {
+				consistent = false
+			}
+		}
+	}
+	for sid, l := range svc.Subs {
+		for _, it := range l {
+			nSubs++
+			if it == nil || svc.Items[it.ID] != it || it.Sub == nil || it.Sub.ID != sid {
+				consistent = false
+			}
+		}
+	}
+	if nNodes != len(svc.Items) || nSubs != len(svc.Items) {
+		consistent = false
+	}
+	for id, it := range svc.Items {
+		v := VerifItem{ID: id, Mode: uint32(it.Mode)}
+		if it.Sub != nil {
+			v.Sub = it.Sub.ID
+			if it.Sub.Session != nil {
+				v.Owner = it.Sub.Session.AuthTokenID.String()
+			}
+		}
+		if it.Req != nil && it.Req.ItemToMonitor != nil {
+			v.Node = it.Req.ItemToMonitor.NodeID.String()
+			v.Attr = uint32(it.Req.ItemToMonitor.AttributeID)
+		}
+		out = append(out, v)
+	}
+	sort.Slice(out, func(i, j int) bool { return out[i].ID < out[j].ID })
+	return out, svc.id, consistent
+}
+
+// VerifEnabledSecurity returns the configured (policy URI, mode) pairs in configuration order.
+func (s *Server) VerifEnabledSecurity() [][2]string {
+	var out [][2]string
+	for _, sec := range s.cfg.enabledSec {
+		out = append(out, [2]string{sec.secPolicy, sec.secMode.String()})
+	}
+	return out
+}
+
+// VerifSessionRequired exposes the dispatcher's session gate predicate.
+func VerifSessionRequired(typeID uint16) bool { return sessionRequired(typeID) }
+
+// VerifHandlerIDs returns the service type ids that have a handler, sorted.
+func (s *Server) VerifHandlerIDs() []uint16 {
+	var out []uint16
+	for k := range s.handlers {
+		out = append(out, k)
+	}
+	sort.Slice(out, func(i, j int) bool { return out[i] < out[j] })
+	return out
+}
